@@ -2,7 +2,7 @@
 # usage: confirm_seed.sh <Cxx> [check ids...]  -- confirm a sub-agent's seeded change independently, then run our check(s) on it
 set -u
 id=$1; shift
-base=${id%b}
+base=${id:0:3}
 checks=${@:-$base}
 src=/tmp/seed
 wt=/tmp/confirm/$id
